@@ -2190,6 +2190,47 @@ mut("ok-pair-C18-7-iter-exhausts", "benign", [], "the list iterator is exhausted
 mut("ok-pair-C18-7-advance-continues", "benign", [], "try_advance goes on after a stall; the iterator restarts from the head, so the traversal "
     "that ends normally is complete (second half of S-C18-7)", [{"patch": "selftest/twins/C18-7-advance-continues.diff"}])
 
+mut("add-atomicrc-get-mut", "break", ["C02", "C08"], "AtomicRc::get_mut added (the method the authors left commented out as unsound): a pointer can be "
+    "written into the link without its stamp",
+    [ed(S, """    /// Takes an underlying [`Rc`] from this [`AtomicRc`], leaving a null pointer.
+    #[inline]
+    pub fn take(&mut self) -> Rc<T> {""", """    /// Returns a mutable reference to the stored `Rc`.
+    pub fn get_mut(&mut self) -> &mut Rc<T> {
+        unsafe { core::mem::transmute(self.link.get_mut()) }
+    }
+
+    /// Takes an underlying [`Rc`] from this [`AtomicRc`], leaving a null pointer.
+    #[inline]
+    pub fn take(&mut self) -> Rc<T> {""")], ["LINK-STAMP"])
+mut("add-rc-try-unwrap", "break", ["C01", "C04"], "Rc::try_unwrap added: moves the payload out and frees the block when strong == 1 - no grace period, no DESTRUCTED mark",
+    [ed(U, """    /// Returns an immutable reference to the object.
+    pub fn data(&self) -> &T {""", """    pub(crate) fn is_unique(&self) -> bool {
+        let st = State::from_raw(self.state.load(Ordering::SeqCst));
+        st.strong() == 1 && !st.weaked()
+    }
+
+    pub(crate) unsafe fn into_inner(ptr: *mut Self) -> T {
+        let b = Box::from_raw(ptr);
+        ManuallyDrop::into_inner(b.storage)
+    }
+
+    /// Returns an immutable reference to the object.
+    pub fn data(&self) -> &T {"""),
+     ed(S, "    /// Consumes this pointer and release a strong reference count it was owning.", """    /// Returns the inner value, if the `Rc` has exactly one strong reference and no weak ones.
+    pub fn try_unwrap(self) -> Result<T, Self> {
+        unsafe {
+            match self.ptr.as_raw().as_mut() {
+                Some(inner) if inner.is_unique() => {
+                    let ptr = self.into_raw();
+                    Ok(RcInner::into_inner(ptr.as_raw()))
+                }
+                _ => Err(self),
+            }
+        }
+    }
+
+    /// Consumes this pointer and release a strong reference count it was owning.""")], ["OWN-BALANCE"])
+
 # behaviour-preserving refactorings written by sub-agents told to keep every interleaving's behaviour (selftest/refactors/)
 for f in sorted(glob.glob(os.path.join(HERE, "refactors", "*.diff"))):
     name = os.path.basename(f)[:-5]
